@@ -7,6 +7,9 @@ use crate::ff::derive::subtle;
 /// p = 2^128 + 12451 as little-endian 64-bit limbs
 const P: [u64; 3] = [12451, 0, 1];
 
+/// limb-wise equality (array `==` goes through memcmp, whose loop needs a large unwinding bound)
+fn eq3(a: &[u64; 3], b: &[u64; 3]) -> bool { a[0] == b[0] && a[1] == b[1] && a[2] == b[2] }
+
 fn lt(a: &[u64; 3], b: &[u64; 3]) -> bool {
   if a[2] != b[2] { return a[2] < b[2]; }
   if a[1] != b[1] { return a[1] < b[1]; }
@@ -176,33 +179,62 @@ fn stub_interpolate(shares: &[Share]) -> Result<Vec<u8>, &'static str> {
   if shares.is_empty() { Err("Need at least one share to interpolate") } else { Ok(Vec::new()) }
 }
 
-fn small_fp() -> Fp {
-  // distinctness logic does not depend on the magnitude: 2-bit limbs keep BTreeSet<Vec<u8>> tractable
-  let a: u8 = kani::any();
-  kani::assume(a < 4);
-  Fp([a as u64, 0, 0])
+// BTreeSet<Vec<u8>> makes CBMC run out of memory even for two shares (641k program steps); it is
+// replaced by an array-backed set with the same observable behaviour (insert returns true iff the
+// key was absent; len; is_empty).  ASSUMED: std's BTreeSet implements a set.
+static mut SET_KEYS: [[u8; 24]; 4] = [[0; 24]; 4];
+static mut SET_N: usize = 0;
+fn stub_set_insert<T: Ord, A: core::alloc::Allocator + Clone>(_s: &mut alloc::collections::BTreeSet<T, A>, v: T) -> bool {
+  unsafe {
+    // star-sharks instantiates T = Vec<u8> holding a 24-byte encoding; any other key type of at most
+    // 24 bytes (e.g. an integer key introduced by a change) is taken as its raw bytes
+    let mut k = [0u8; 24];
+    if core::mem::size_of::<T>() == 24 && core::mem::align_of::<T>() == 8 {
+      let vv: &Vec<u8> = &*(&v as *const T as *const Vec<u8>);
+      k.copy_from_slice(&vv[0..24]);
+    } else {
+      let n = core::mem::size_of::<T>();
+      assert!(n <= 24);
+      core::ptr::copy_nonoverlapping(&v as *const T as *const u8, k.as_mut_ptr(), n);
+    }
+    let a = limbs_of(&k);
+    let mut i = 0;
+    let mut found = false;
+    while i < SET_N {
+      let l = limbs_of(&SET_KEYS[i]);
+      if l[0] == a[0] && l[1] == a[1] && l[2] == a[2] { found = true; }
+      i += 1;
+    }
+    if !found {
+      SET_KEYS[SET_N] = k;
+      SET_N += 1;
+    }
+    !found
+  }
 }
+/// Fp equality on canonical residues is limb equality (T-field); keeps ct_eq's byte loop out of the harness
+fn stub_fp_ct_eq(a: &Fp, b: &Fp) -> subtle::Choice { subtle::Choice::from(eq3(&a.0, &b.0) as u8) }
+fn stub_set_len<T, A: core::alloc::Allocator + Clone>(_s: &alloc::collections::BTreeSet<T, A>) -> usize { unsafe { SET_N } }
+fn stub_set_is_empty<T, A: core::alloc::Allocator + Clone>(_s: &alloc::collections::BTreeSet<T, A>) -> bool { unsafe { SET_N == 0 } }
 
-/// Sharks::recover = selection logic (C06/C02/C09): for up to 3 shares with symbolic x (values 0..3),
-/// symbolic y-lengths 0..1 and symbolic threshold 0..4:
+/// Sharks::recover = selection logic (C06/C02/C09): for N shares (concrete N) with symbolic x
+/// (low limb 0..3, high limb 0..1 so that values differing by 2^128 occur), symbolic y-lengths 0..1
+/// and symbolic threshold 0..N+1:
 ///   unequal y-lengths => Err;  threshold 0 or fewer distinct x than threshold => Err;
 ///   otherwise interpolate receives exactly the first `threshold` distinct-x shares in
 ///   first-occurrence order; never panics.
-#[kani::proof]
-#[kani::unwind(5)]
-#[kani::stub(interpolate, stub_interpolate)]
-#[kani::stub(<Fp as crate::ff::PrimeField>::to_repr, stub_to_repr)]
-fn k_recover_selection() {
-  let n: usize = kani::any();
-  kani::assume(n <= 3);
+fn check_recover_selection<const N: usize>() {
   let t: u32 = kani::any();
-  kani::assume(t <= 4);
-  let mut shares: Vec<Share> = Vec::new();
-  let mut xs = [[0u64; 3]; 3];
-  let mut ls = [0usize; 3];
+  kani::assume(t as usize <= N + 1);
+  let mut shares: Vec<Share> = Vec::with_capacity(N);
+  let mut xs = [[0u64; 3]; N];
+  let mut ls = [0usize; N];
   let mut i = 0;
-  while i < n {
-    let x = small_fp();
+  while i < N {
+    let a: u8 = kani::any();
+    let h: bool = kani::any();
+    kani::assume(a < 4);
+    let x = Fp([a as u64, 0, h as u64]);
     let l: bool = kani::any();
     let y = if l { vec![Fp([1, 0, 0])] } else { Vec::new() };
     xs[i] = x.0;
@@ -210,20 +242,20 @@ fn k_recover_selection() {
     shares.push(Share { x, y });
     i += 1;
   }
-  unsafe { SEEN_LEN = usize::MAX; }
+  unsafe { SEEN_LEN = usize::MAX; SET_N = 0; }
   let sharks = crate::Sharks(t);
   let r = sharks.recover(&shares);
   // independent reference: first occurrences
   let mut lens_ok = true;
-  let mut dx = [[0u64; 3]; 3];
+  let mut dx = [[0u64; 3]; N];
   let mut dn = 0usize;
   let mut i = 0;
-  while i < n {
+  while i < N {
     if ls[i] != ls[0] { lens_ok = false; }
     let mut dup = false;
     let mut j = 0;
     while j < i {
-      if xs[j] == xs[i] { dup = true; }
+      if eq3(&xs[j], &xs[i]) { dup = true; }
       j += 1;
     }
     if !dup { dx[dn] = xs[i]; dn += 1; }
@@ -235,12 +267,34 @@ fn k_recover_selection() {
     unsafe {
       assert!(SEEN_LEN == t as usize);
       let mut k = 0;
-      while k < t as usize && k < 3 {
-        assert!(SEEN_X[k] == dx[k]);
+      while k < t as usize && k < N {
+        assert!(eq3(&SEEN_X[k], &dx[k]));
         k += 1;
       }
     }
   }
+}
+#[kani::proof]
+#[kani::unwind(5)]
+#[kani::stub(interpolate, stub_interpolate)]
+#[kani::stub(<Fp as crate::ff::PrimeField>::to_repr, stub_to_repr)]
+#[kani::stub(alloc::collections::BTreeSet::insert, stub_set_insert)]
+#[kani::stub(alloc::collections::BTreeSet::len, stub_set_len)]
+#[kani::stub(alloc::collections::BTreeSet::is_empty, stub_set_is_empty)]
+#[kani::stub(<Fp as crate::ff::derive::subtle::ConstantTimeEq>::ct_eq, stub_fp_ct_eq)]
+fn k_recover_selection_2() {
+  check_recover_selection::<2>();
+}
+#[kani::proof]
+#[kani::unwind(5)]
+#[kani::stub(interpolate, stub_interpolate)]
+#[kani::stub(<Fp as crate::ff::PrimeField>::to_repr, stub_to_repr)]
+#[kani::stub(alloc::collections::BTreeSet::insert, stub_set_insert)]
+#[kani::stub(alloc::collections::BTreeSet::len, stub_set_len)]
+#[kani::stub(alloc::collections::BTreeSet::is_empty, stub_set_is_empty)]
+#[kani::stub(<Fp as crate::ff::derive::subtle::ConstantTimeEq>::ct_eq, stub_fp_ct_eq)]
+fn k_recover_selection_3() {
+  check_recover_selection::<3>();
 }
 
 /// Vec<u8>::from(&Share) = x.to_repr() ++ y[0].to_repr() ++ ... (structure only; to_repr itself is
@@ -264,9 +318,6 @@ fn k_vec_from_share() {
 // ---------------------------------------------------------------------------------------------
 // Bounded TWINS of functions Verus proves unboundedly: they decide a function whose changed text is
 // no longer within Verus' reach, and provide concrete counterexamples for Verus failures.
-
-/// limb-wise equality (array `==` goes through memcmp, whose loop needs a large unwinding bound)
-fn eq3(a: &[u64; 3], b: &[u64; 3]) -> bool { a[0] == b[0] && a[1] == b[1] && a[2] == b[2] }
 
 fn limbs_of(b: &[u8]) -> [u64; 3] {
   let mut l = [0u64; 3];
